@@ -119,11 +119,15 @@ DataFd(s, fd) == Live(s, fd) /\ FdOf(s, fd).st = "open"
 \* an open file whose name was unlinked or renamed away lives on in the host; the model does not follow it
 Orphan(s, fd) == DataFd(s, fd) /\ FdOf(s, fd).kind = "file" /\ ~IsFile(s, FdOf(s, fd).path)
 
+\* a positional offset with its top bit set is a negative file offset for the host: EINVAL, nothing transferred or moved
+NegOff(c) == c.offset[8] >= 128
 FdWrite(s, c, positional) ==
     IF ~DataFd(s, c.fd) THEN Res(s, EBADF, NoOut)
     ELSE IF Orphan(s, c.fd) THEN Res(s, EUNSPEC, NoOut)
     ELSE LET d == FdOf(s, c.fd) IN
-    IF d.kind = "dir" \/ ~d.wr THEN Res(s, EBADF, NoOut)
+    \* (the offset is looked at before the access mode: the implementation seeks first)
+    IF positional /\ NegOff(c) THEN Res(s, IF d.kind = "dir" THEN EUNSPEC ELSE EINVAL, NoOut)
+    ELSE IF d.kind = "dir" \/ ~d.wr THEN Res(s, EBADF, NoOut)
     ELSE IF Concat(c.segs) = <<>> THEN Res(s, ESUCCESS, [n |-> 0])          \* nothing to write: nothing moves
     ELSE LET f == s.fs[d.path]
              data == Concat(c.segs)
@@ -136,7 +140,8 @@ FdRead(s, c, positional) ==
     IF ~DataFd(s, c.fd) THEN Res(s, EBADF, NoOut)
     ELSE IF Orphan(s, c.fd) THEN Res(s, EUNSPEC, NoOut)
     ELSE LET d == FdOf(s, c.fd) IN
-    IF ~d.rd THEN Res(s, EBADF, NoOut)
+    IF positional /\ NegOff(c) THEN Res(s, IF d.kind = "dir" THEN EUNSPEC ELSE EINVAL, NoOut)
+    ELSE IF ~d.rd THEN Res(s, EBADF, NoOut)
     ELSE IF d.kind = "dir" THEN Res(s, IF SumLens(c.lens) = 0 THEN EUNSPEC ELSE EISDIR, NoOut)
     ELSE LET f == s.fs[d.path]
              at == IF positional THEN c.offset ELSE d.pos
